@@ -194,6 +194,44 @@ def path_violations(view):
     return viol
 
 
+def exact_violations(view, envs, results):
+    """exactness on the direct-check family, where the concrete semantics IS the literal reading:
+    C06: a size / index is listed for a block iff some accepting execution through it has that size / index;
+    C09: a known bound equals the largest approvable fee (among the region representatives);
+    C03: a detector reports a path only if some accepting execution carries its dangerous value"""
+    viol = {}
+    seen_sizes, seen_idx, max_fee, through = {}, {}, {}, set()
+    dangerous = set()
+    for (size, self_idx, txns), r in zip(envs, results):
+        if r['tag'] != 'accept': continue
+        m = txns[self_idx]
+        for b in set(r['blocks']):
+            seen_sizes.setdefault(b, set()).add(size); seen_idx.setdefault(b, set()).add(self_idx)
+            max_fee[b] = max(max_fee.get(b, -1), m.get('Fee', 0)); through.add(b)
+        for det in ('missing-fee-check', 'group-size-check'):
+            if O.is_dangerous(det, size, m, r['blocks'], view.abs_blocks): dangerous.add(det)
+    all_sizes_tried = len(set(e[0] for e in envs)) == 16
+    all_idx_tried = all_sizes_tried and len(set((e[0], e[1]) for e in envs)) == 136
+    for key, fb in view.fblocks.items():
+        b = fb['idx']
+        c = view.context(key)
+        if all_sizes_tried and set(c['sizes']) != seen_sizes.get(b, set()):
+            viol[('C06', 'exact-sizes', f"b{b}", 0)] = f"block {b}: sizes listed {c['sizes']}, sizes of accepting executions through it {sorted(seen_sizes.get(b, set()))}"
+        if all_idx_tried and set(c['indices']) != seen_idx.get(b, set()):
+            viol[('C06', 'exact-indices', f"b{b}", 0)] = f"block {b}: indices listed {c['indices']}, indices of accepting executions through it {sorted(seen_idx.get(b, set()))}"
+        if b in through and c['fee'] is not None and c['fee'] != max_fee[b] and len(set(m.get('Fee') for e in envs for m in [e[2][e[1]]])) > 2:
+            viol[('C09', 'exact-fee', f"b{b}", 0)] = f"block {b}: bound {c['fee']}, largest approvable fee among the representatives {max_fee[b]}"
+        if b not in through and (c['sizes'] or c['indices']):
+            if all_sizes_tried:
+                viol[('C06', 'exact-empty', f"b{b}", 0)] = f"block {b} is on no accepting execution but lists sizes {c['sizes']}"
+    gfee = any(' gtxn 0 Fee' in l or 'gtxn,0,Fee' in l for l in getattr(view, 'lines', []))
+    for det in ('missing-fee-check', 'group-size-check'):
+        ps = view.paths.get(det)
+        if ps and det not in dangerous and not gfee:
+            viol[('C03', det, 'imprecise', 0)] = f"{det} reports {ps} although no accepting execution carries the dangerous value (every accepting path excludes it)"
+    return viol
+
+
 def walk_violations(view, envs, results):
     """C04: the block trace of every execution is a matched walk of the tool's global graph"""
     viol = {}
@@ -321,7 +359,9 @@ def process(item):
         if (nenv or item.get('envs')) and (iv.analysed or mv.analysed):
             rng = random.Random(f"env/{item.get('seed', 0)}/{name}")
             info = info_from_toks(toks)
-            if item.get('envs'):
+            if item.get('exact'):
+                envs = O.exact_envs(info, ' '.join(toks))
+            elif item.get('envs'):
                 envs = [(e['size'], e['self'], {int(i): m for i, m in e['txns'].items()}) for e in item['envs']]
             else:
                 envs = list(O.draw_envs(info, rng, nenv))
@@ -337,6 +377,8 @@ def process(item):
                 vi, s1 = eval_view(iv, envs, rr)
                 vi.update(walk_violations(iv, envs, rr))
                 vi.update(path_violations(iv))
+                if item.get('exact'):
+                    vi.update(exact_violations(iv, envs, rr))
                 res['stats'].update(s1)
             else:
                 vi = {}
@@ -344,6 +386,8 @@ def process(item):
                 vm, _ = eval_view(mv, envs, rr)
                 vm.update(walk_violations(mv, envs, rr))
                 vm.update(path_violations(mv))
+                if item.get('exact'):
+                    vm.update(exact_violations(mv, envs, rr))
             else:
                 vm = vi if not d else {}
             def pack(v, other):
@@ -370,3 +414,116 @@ def run_items(items, procs=None):
         return [process(i) for i in items]
     with multiprocessing.get_context('fork').Pool(procs) as pool:
         return pool.map(process, items, chunksize=max(1, len(items) // (procs * 4)))
+
+
+def dispatch_paths(src, maxlen=4, cap=6, rng=None):
+    """root-to-block prefixes of the main graph of the real parse"""
+    import impl
+    teal, cap_ = impl.parse(src)
+    main = set(teal.main.blocks)
+    paths, frontier = [], [[teal.main.entry]]
+    while frontier and len(paths) < 200:
+        p = frontier.pop(0)
+        paths.append(p)
+        if len(p) < maxlen:
+            for n in p[-1].next:
+                if n in main and n not in p:
+                    frontier.append(p + [n])
+    out = [tuple(f"B{b.idx}" for b in p) for p in paths]
+    if rng is not None and len(out) > cap:
+        keep = [out[0]] + rng.sample(out[1:], cap - 1)
+        out = keep
+    return out[:cap]
+
+
+def process_c12(item):
+    """C12: functions cut out by dispatch paths. Per path: correspondence with the model, contexts sound w.r.t. the executions
+    that start with the path; building functions leaves the contract's graph unchanged and is order independent."""
+    import impl, corr
+    name, src = item['name'], item['src']
+    res = {'name': name, 'status': 'ok', 'diff': {}, 'viol_impl': [], 'stats': {}, 'shapes': [], 'npaths': 0}
+    try:
+        rng = random.Random(f"c12/{item.get('seed', 0)}/{name}")
+        try:
+            with impl.time_limit(20):
+                paths = dispatch_paths(src, rng=rng)
+        except BaseException as e:
+            res['status'] = 'impl-parse-error'; return res
+        res['npaths'] = len(paths)
+        drv = driver()
+        # (a) the contract's graph before / after building all functions, in two orders
+        with impl.time_limit(60):
+            teal, cap = impl.parse(src)
+            before = impl.render_teal(teal, cap)
+            toks = [impl.enc_ins(i) for i in cap.instructions]
+            res['shapes'] = sorted(S.shapes_of(toks))
+            per_path = {}
+            for order in (paths, list(reversed(paths))):
+                for pth in order:
+                    try:
+                        fn = impl.construct_function_traced(teal, list(pth))
+                        keys = impl.block_keys(fn)
+                        lines = impl.render_function(fn, keys) + impl.render_contexts(fn, keys)
+                    except impl.AnalysisFailed as af:
+                        keys = impl.block_keys(af.fn)
+                        lines = impl.render_function(af.fn, keys) + ['err analyse ' + impl.exc_name(af.exc)]
+                    except BaseException as e:
+                        if isinstance(e, impl.Timeout): raise
+                        lines = ['err func ' + impl.exc_name(e)]
+                    per_path.setdefault(pth, []).append(lines)
+            after = impl.render_teal(teal, cap)
+        viol = {}
+        if before != after:
+            d = corr.diff(before, after)
+            viol[('C12', 'graph-altered', 'teal', 0)] = f"building functions changed the contract's own graph: {json.dumps({k: [v[0][:2], v[1][:2]] for k, v in d.items()})[:400]}"
+        for pth, (l1, l2) in per_path.items():
+            if l1 != l2:
+                d = corr.diff(l1, l2)
+                viol[('C12', 'order-dependent', '.'.join(pth), 0)] = f"function for path {pth} differs when the functions are built in another order: {json.dumps({k: [v[0][:1], v[1][:1]] for k, v in d.items()})[:400]}"
+        # (b) per path: model correspondence + soundness w.r.t. executions that start with the path
+        info = info_from_toks(toks)
+        envs = list(O.draw_envs(info, rng, item.get('nenv', 60)))
+        rr = None
+        for pth in paths:
+            ilines = per_path[pth][0]
+            mlines = model_prog(drv, toks, '.'.join(p[1:] for p in pth))
+            keep = lambda ls: [l for l in ls if corr.phase(l) in ('func', 'ctx', 'err')]
+            d = corr.diff(keep(ilines), keep(mlines))
+            if d:
+                res['status'] = 'diff'
+                res['diff'][','.join(pth)] = {k: [v[0][:3], v[1][:3], len(v[0]), len(v[1])] for k, v in d.items()}
+            iv = View(ilines)
+            if iv.analysed:
+                if rr is None:
+                    if drv.load(toks) != 'semprog ok': break
+                    rr = [O.parse_res(l) for l in drv.run_many([O.env_line(j, 4000, s_, i_, t_) for j, (s_, i_, t_) in enumerate(envs)])]
+                want = [int(p[1:]) for p in pth]
+                sel = [(e, r) for e, r in zip(envs, rr) if r['tag'] == 'accept' and r['blocks'][:len(want)] == want]
+                res['stats']['path_runs'] = res['stats'].get('path_runs', 0) + len(sel)
+                if any(set(r['blocks'][len(want):]) & set(want[:-1]) for _, r in sel):
+                    res['shapes'] = sorted(set(res['shapes']) | {'pathRevisit'})
+                mv = View(mlines)
+                if mv.fblocks: iv.abs_blocks = mv.abs_blocks
+                vi, _ = eval_view(iv, [e for e, _ in sel], [r for _, r in sel])
+                vm, _ = eval_view(mv, [e for e, _ in sel], [r for _, r in sel]) if (d and mv.analysed) else (vi, None)
+                for k, det in vi.items():
+                    if k[0] in ('C06', 'C07', 'C08', 'C09', 'C10'):
+                        viol[('C12', k[0] + ':' + k[1], ','.join(pth) + ':' + k[2], k[3])] = det + ('' if k in vm else ' [model does not exhibit it]')
+                        res.setdefault('model_has', {})[str(('C12', k[0] + ':' + k[1], ','.join(pth) + ':' + k[2], k[3]))] = k in vm
+            # path [B0]: isomorphic to the main graph
+        mh = res.get('model_has', {})
+        res['viol_impl'] = [{'prop': p_, 'field': f_, 'where': w_, 'env': j_, 'detail': det_, 'in_other': mh.get(str((p_, f_, w_, j_)), False) if f_ not in ('graph-altered', 'order-dependent') else False}
+                            for (p_, f_, w_, j_), det_ in viol.items()]
+    except impl.Timeout:
+        res['status'] = 'impl-timeout'
+    except Exception:
+        res['status'] = 'harness-error'; res['detail'] = traceback.format_exc()[-2000:]
+    return res
+
+
+def run_items_with(fn, items, procs=None):
+    procs = procs or min(16, os.cpu_count() or 4)
+    if len(items) <= 2:
+        return [fn(i) for i in items]
+    with multiprocessing.get_context('fork').Pool(procs) as pool:
+        return pool.map(fn, items, chunksize=max(1, len(items) // (procs * 4)))
